@@ -73,13 +73,15 @@ def run(ck):
     ck.mc("MC_Ristretto", "MC_Ristretto_29.cfg", note="every string / every 2-byte map input has an outcome", workers=8)
     ck.mc("MC_Montgomery", "MC_Montgomery_29.cfg", note="to_edwards total; Elligator2 output is never rejected (the expect() cannot fire)", workers=8)
     specs = [("s64", True), ("v2", True), ("s32", True)] if quick else [(b, True) for b in ALL_BACKENDS] + [("s64", False)]
-    bins = build_many([(b, t, "release", ()) for b, t in specs], jobs=3)
+    # the property is not limited to release builds: one build with overflow checks and debug assertions runs the same script
+    specs = [(b, t, "release") for b, t in specs] + [("s64", True, "checked")] + ([] if quick else [("v2", True, "checked")])
+    bins = build_many([(b, t, p, ()) for b, t, p in specs], jobs=3)
     ops = gen(ck.rng, quick)
     sp = os.path.join(ck.workdir, "script.ndjson")
     write_script(sp, ops)
     traces = []
-    for b, t in specs:
-        cid = cfg_id(b, t)
+    for b, t, p in specs:
+        cid = cfg_id(b, t, p)
         tp = os.path.join(ck.workdir, cid + ".trace.ndjson")
         run_driver(bins[cid], cid, sp, tp)
         traces.append((cid, tp))
